@@ -1,14 +1,4 @@
 // ===== HTTP request text as mathematics (RFC 9112 section 3) =====
-pub open spec fn no_crlf(s: Seq<char>) -> bool { forall|i: int| 0 <= i < s.len() ==> #[trigger] s[i] != '\r' && s[i] != '\n' }
-pub open spec fn strip_crlf(s: Seq<char>) -> Seq<char> { without_char(without_char(s, '\r'), '\n') }
-
-pub proof fn lemma_strip_crlf(s: Seq<char>)
-    ensures no_crlf(strip_crlf(s)), no_crlf(s) ==> strip_crlf(s) == s,
-{
-    lemma_without_char(s, '\r', '\n');
-    lemma_without_char(without_char(s, '\r'), '\n', '\r');
-}
-
 pub open spec fn methods() -> Seq<Seq<char>> {
     seq![METHOD.get@, METHOD.head@, METHOD.post@, METHOD.put@, METHOD.delete@, METHOD.connect@, METHOD.options@, METHOD.trace@, METHOD.patch@]
 }
